@@ -30,6 +30,12 @@ const DOCS: &[&[&str]] = &[
         "#let x = ((1, (2, (3, (4, [#(5,)])))), f(g(h(1))))\n",
         "= T\n- a\n  - b\n$ x^2 + sum_(i=0)^n i $\n",
     ],
+    // 3: decisions that depend on the configuration, taken many times (dot chains whose head
+    // lies between the chain-width thresholds of the two page widths; a table)
+    &[
+        "#let a = alpha0001.bravo0001.charlie0001(1)\n#let b = alpha0002.bravo0002.charlie0002(2)\n#let c = alpha0003.bravo0003.charlie0003(3)\n#let d = alpha0004.bravo0004.charlie0004(4)\n",
+        "#table(columns: 2, [a], [b], [c], [d])\n#let e = alpha0005.bravo0005.charlie0005(5)\n",
+    ],
 ];
 
 fn run_call(kind: usize, text: &str, shared: &Source, c: &Config) -> String {
@@ -47,19 +53,27 @@ fn run_call(kind: usize, text: &str, shared: &Source, c: &Config) -> String {
 fn main() {
     let scen: usize = std::env::args().nth(1).and_then(|s| s.parse().ok()).unwrap_or(0) % DOCS.len();
     let docs = DOCS[scen];
-    let cfgs = [cfg(80, 2, false), cfg(20, 4, true)];
+    // two configurations that are active at the same time in different threads
+    let cfgs = if scen == 3 { [cfg(120, 2, false), cfg(40, 4, true)] } else { [cfg(80, 2, false), cfg(20, 4, true)] };
     let sources: Arc<Vec<Source>> = Arc::new(docs.iter().map(|d| Source::detached(*d)).collect());
     // the call table: (doc, config, kind); small, because Miri is ~1000x slower than native
     let mut table: Vec<(usize, usize, usize)> = Vec::new();
     for di in 0..docs.len() {
-        table.push((di, 0, 0)); // format_content, default config
-        table.push((di, 1, 1)); // format_source on the shared Source, narrow + reorder
-        table.push((di, 0, 3)); // format_source_range on the shared Source
+        if scen == 3 {
+            // the same text under both configurations, so that two threads are inside
+            // configuration-dependent decisions with different configurations at the same time
+            table.push((di, 0, 0));
+            table.push((di, 1, 0));
+        } else {
+            table.push((di, 0, 0)); // format_content, default config
+            table.push((di, 1, 1)); // format_source on the shared Source, narrow + reorder
+            table.push((di, 0, 3)); // format_source_range on the shared Source
+        }
     }
     // sequential references, before any thread exists
     let refs: Arc<Vec<String>> = Arc::new(table.iter().map(|(di, ci, kind)| run_call(*kind, docs[*di], &sources[*di], &cfgs[*ci])).collect());
     let table = Arc::new(table);
-    let nthreads = 3;
+    let nthreads = if scen == 3 { 2 } else { 3 };
     let mut hs = Vec::new();
     for t in 0..nthreads {
         let (sources, refs, table) = (sources.clone(), refs.clone(), table.clone());
@@ -68,7 +82,7 @@ fn main() {
             // every thread walks the whole table from a different offset: the same shared Source
             // is formatted by all threads at once, interleaved with the twin document
             for step in 0..table.len() {
-                let i = (step + 2 * t) % table.len();
+                let i = (step + (if table.len() == 4 { 1 } else { 2 }) * t) % table.len();
                 let (di, ci, kind) = table[i];
                 let got = run_call(kind, docs[di], &sources[di], &cfgs[ci]);
                 assert_eq!(got, refs[i], "C17 violated under Miri: call {} differs from its solo result", i);
